@@ -19,6 +19,15 @@ theorem scan_restores_clean (P : Params) (v : Variant) (cb : Nat → CbRet) (sta
     (scanCall P v cb stack s it w).sc.core.Clean :=
   scanCall_clean P v cb stack s it w hm h
 
+/-- **Pending pieces of chained strings never survive a scan**: whatever the outcome (other than "suspended"), the lists of
+    unconfirmed matches (`unconfirmed_matches[]`, heads of `{ .. [-] .. }` / large-jump chains waiting for their tail) are
+    empty afterwards, as are the confirmed matches — so `history_independent` covers chained strings: a tail in a later
+    scan can never be combined with a head of an earlier one. -/
+theorem unconfirmed_never_survive (P : Params) (v : Variant) (cb : Nat → CbRet) (stack : Nat) (s : Sc) (it : It) (w : World)
+    (hm : s.core.modules = []) (h : (scanCall P v cb stack s it w).rc ≠ .blockNotReady) :
+    (scanCall P v cb stack s it w).sc.core.unconfirmed = [] ∧ (scanCall P v cb stack s it w).sc.core.found = [] :=
+  ⟨(scanCall_clean P v cb stack s it w hm h).unconfirmed, (scanCall_clean P v cb stack s it w hm h).found⟩
+
 /-- Along every history the scanner is either clean or holds a suspended scan (with its notebook);
     loaded modules never survive a call. -/
 theorem history_invariant (P : Params) (v : Variant) (set : Settings) (w : World) (h : List HOp) (hv : reuseOk v h) :
@@ -116,7 +125,7 @@ def P : Params :=
     maxMatches := 1000
     cands := fun d => if d = 2 then [⟨0, 1, 3⟩] else if d = 3 then [⟨0, 2, 3⟩] else []   -- data 2 / 3: string 0 at offset 1 / 2
     ep := fun _ d _ _ => if d = 0 then some 512 else none      -- data 0: an executable with entry point 512
-    singleMatch := fun _ => false
+    singleMatch := fun _ => false, chain := fun _ => none, pruneSlack := 1028
     scanErr := fun _ => none
     cond := fun i v => if i = 0 then .ret v.entryPoint.isSome else .ret (decide ((tget v.found 0).length ≥ 2))
     modParse := fun _ _ => none }
@@ -196,6 +205,47 @@ example :
     (runH P .fixed (HSt.init set w0) [.start slow]).sc.core.found = [(0, [⟨0, 1, 3⟩])] ∧
     (runH P .fixed (HSt.init set w0) [.start slow, .cont]).lastRc = .success ∧
     (runH P .fixed (HSt.init set w0) [.start slow, .cont]).sc.core.found = [] := by
+  decide
+
+namespace WitnessChain
+
+/-- one rule `$a` with `$a = { AA BB CC DD [-] EE FF 00 11 }`: string 0 is the head piece, string 1 the tail piece -/
+def P : Params :=
+  { rules := [⟨0, false, false, false, [0, 1]⟩]
+    imports := []
+    strRule := fun _ => 0
+    maxMatches := 1000
+    cands := fun d => if d = 0 then [⟨0, 10, 4⟩] else if d = 1 then [⟨1, 40, 4⟩] else if d = 2 then [⟨0, 10, 4⟩, ⟨1, 40, 4⟩] else []
+    ep := fun _ _ _ _ => none
+    singleMatch := fun _ => false
+    chain := fun s => if s = 0 then some ⟨none, 0, 0, false⟩ else if s = 1 then some ⟨some 0, 0, 2147483647, true⟩ else none
+    pruneSlack := 1028
+    scanErr := fun _ => none
+    cond := fun _ v => .ret (!(tget v.found 0).isEmpty)
+    modParse := fun _ _ => none }
+
+def set : Settings := ⟨true, true, 0, true, false, false⟩
+def cont : Nat → CbRet := fun _ => .cont
+def headOnly : Start := ⟨[⟨0, 64, some 0⟩], [], some 64, cont, 16⟩
+def tailOnly : Start := ⟨[⟨0, 64, some 1⟩], [], some 64, cont, 16⟩
+def both : Start := ⟨[⟨0, 64, some 2⟩], [], some 64, cont, 16⟩
+/-- the head-only buffer followed by a block that is not ready: the scan is suspended with the head pending -/
+def headThenWait : Start := ⟨[⟨0, 64, some 0⟩, ⟨64, 8, some 3⟩], [.ok, .notReady], some 72, cont, 16⟩
+
+end WitnessChain
+
+open WitnessChain in
+/-- chained strings in histories: the whole pattern matches (offset 10, length 34); a head alone is pending only DURING
+    its scan (visible while that scan is suspended) and is gone afterwards; a later scan containing only the tail reports
+    nothing — on the re-used scanner exactly as on a new one. -/
+example :
+    tracesH P .fixed (HSt.init set ⟨0, 0⟩) [.start both] = [some ([.ruleMatching 0 [(0, [⟨0, 10, 34⟩]), (1, [])], .scanFinished], .success)] ∧
+    (runH P .fixed (HSt.init set ⟨0, 0⟩) [.start headThenWait]).sc.core.unconfirmed = [(0, [⟨0, 10, 4, 0⟩])] ∧
+    (runH P .fixed (HSt.init set ⟨0, 0⟩) [.start headOnly]).sc.core.unconfirmed = [] ∧
+    tracesH P .fixed (runH P .fixed (HSt.init set ⟨0, 0⟩) [.start headOnly]) [.start tailOnly] =
+      [some ([.ruleNotMatching 0 [(0, []), (1, [])], .scanFinished], .success)] ∧
+    tracesH P .fixed (runH P .fixed (HSt.init set ⟨0, 0⟩) [.start headThenWait]) [.start tailOnly] =
+      tracesH P .fixed (HSt.init set ⟨0, 0⟩) [.start tailOnly] := by
   decide
 
 end YaraModel.Scan
